@@ -190,7 +190,7 @@ pub fn gen_config(r: &mut Rng, o: &GenOpts) -> (serde_json::Value, Meta) {
   let pp: serde_json::Value = if poling {
     let period = if r.below(4) == 0 { serde_json::json!(round_to(r.log_range(3.0, 200.0), 2)) } else { serde_json::json!("auto") };
     let ap = if o.apodization && r.below(4) == 0 {
-      match r.below(4) {
+      match r.below(8) {
         0 => {
           apod = "Gaussian".into();
           serde_json::json!({"kind": "Gaussian", "parameter": {"fwhm_um": round_to(length_um * r.range(0.3, 1.2), 0)}})
@@ -202,6 +202,24 @@ pub fn gen_config(r: &mut Rng, o: &GenOpts) -> (serde_json::Value, Meta) {
         2 => {
           apod = "Welch".into();
           serde_json::json!({"kind": "Welch", "parameter": round_to(r.range(1.0, 2.0), 2)})
+        }
+        3 => {
+          apod = "Blackman".into();
+          serde_json::json!({"kind": "Blackman", "parameter": round_to(r.range(1.0, 2.0), 2)})
+        }
+        4 => {
+          apod = "Connes".into();
+          serde_json::json!({"kind": "Connes", "parameter": round_to(r.range(1.0, 2.0), 2)})
+        }
+        5 => {
+          apod = "Cosine".into();
+          serde_json::json!({"kind": "Cosine", "parameter": round_to(r.range(1.0, 2.0), 2)})
+        }
+        6 => {
+          apod = "Interpolate".into();
+          let n = r.between(2, 9);
+          let v: Vec<f64> = (0..n).map(|_| round_to(r.range(0.1, 1.0), 3)).collect();
+          serde_json::json!({"kind": "Interpolate", "parameter": v})
         }
         _ => {
           apod = "Hamming".into();
@@ -712,6 +730,15 @@ fn norm_case(ctx: &mut Ctx, s: &SPDC, o: &SPDC, meta: &Meta, detail: &str) {
     }
     ctx.s("C20.norm", r_ok, if r_ok { "norm/range-ok" } else { "norm/range-differs-from-point" }, &pdetail);
 
+    // route: the constructor and the SPDC-level wrapper are the same spectrum
+    if k == 0 {
+      let j2 = guard(|| spdcalc::JointSpectrum::new(s.clone(), integ));
+      if let Some(j2) = j2 {
+        let okr = crel_ok(j2.jsa_normalized(ws, wi), jsan, 1e-12) && rel_ok(j2.jsi_normalized(ws, wi), jsin, 1e-12) && rel_ok(j2.jsi_singles_normalized(ws, wi), jssn, 1e-12);
+        ctx.s("C20.norm", okr, if okr { "norm/route-ok" } else { "norm/constructor-differs-from-joint_spectrum" }, &pdetail);
+      }
+    }
+
     // idler singles (only exposed as range functions).  The code evaluates them as the signal singles of the
     // swapped setup, normalised by the reference of *that* setup's optimised version; where the setup is
     // energy-consistent and forward-propagating this coincides with the idler singles of the setup's own optimised
@@ -787,13 +814,22 @@ fn norm_case(ctx: &mut Ctx, s: &SPDC, o: &SPDC, meta: &Meta, detail: &str) {
 
 fn seq_integrators() -> Vec<(Integrator, &'static str, bool)> {
   // (integrator, name, every accessor deterministic: sequential sums only)
+  // every variant and the parameter values where the code branches: odd / even divisions, 128 = first parallel 1-D sum,
+  // degree 1 (raised to 2 inside), loose and tight adaptive tolerances, Clenshaw–Curtis.  (GaussKonrod's nested 2-D form
+  // is the known time-out D4d and is left out.)
   vec![
     (Integrator::Simpson { divs: 6 }, "simpson6", false),
+    (Integrator::Simpson { divs: 7 }, "simpson7", false),
     (Integrator::Simpson { divs: 50 }, "simpson50", false),
+    (Integrator::Simpson { divs: 128 }, "simpson128", false),
     (Integrator::Simpson { divs: 200 }, "simpson200", false),
+    (Integrator::GaussLegendre { degree: 1 }, "gl1", true),
     (Integrator::GaussLegendre { degree: 4 }, "gl4", true),
     (Integrator::GaussLegendre { degree: 40 }, "gl40", true),
+    (Integrator::GaussLegendre { degree: 64 }, "gl64", true),
     (Integrator::AdaptiveSimpson { tolerance: 1e5, max_depth: 5 }, "adaptive", true),
+    (Integrator::AdaptiveSimpson { tolerance: 1e-3, max_depth: 3 }, "adaptive-tight", true),
+    (Integrator::ClenshawCurtis { tolerance: 1e-2 }, "clenshaw-curtis", true),
   ]
 }
 
@@ -1065,26 +1101,47 @@ pub fn run(ctx: &mut Ctx) {
   let mut history = Vec::new();
   // a fixed familiar setup first
   let mut fixed = vec![SPDC::default()];
+  // exact boundary values: signal angle −0.0 / 180° / azimuth 360°, crystal angle exactly 0 and 90°, an explicit idler
+  // that is the energy-conserving one to the last bit, a threshold of exactly 0 and 1, equal signal/idler wavelengths
+  for (cp, th, ph, cth, poled) in [(false, -0.0, 360.0, 90.0, true), (false, 0.0, 0.0, 0.0, true), (true, 180.0, 0.0, 90.0, true), (true, 0.0, 360.0, 90.0, true), (false, 0.0, 180.0, 45.0, false)] {
+    let cfg = serde_json::json!({
+      "crystal": {"kind": "KTP", "pm_type": "Type2_e_eo", "phi_deg": 0.0, "theta_deg": cth, "length_um": 5000.0, "temperature_c": 20.0, "counter_propagation": cp},
+      "pump": {"wavelength_nm": 775.0, "waist_um": 80.0, "bandwidth_nm": 1.0, "average_power_mw": 10.0, "spectrum_threshold": 0.01},
+      "signal": {"wavelength_nm": 1550.0, "phi_deg": ph, "theta_deg": th, "waist_um": 60.0, "waist_position_um": "auto"},
+      "idler": "auto",
+      "periodic_poling": if poled { serde_json::json!({"poling_period_um": "auto"}) } else { serde_json::Value::Null },
+      "deff_pm_per_volt": 1.0
+    });
+    if let Some(sb) = build(&cfg) {
+      // the optimum fed back in with its idler made explicit, bit for bit
+      if let Some(Ok(ob)) = guard(|| sb.clone().try_as_optimum()) {
+        fixed.push(ob);
+      }
+      fixed.push(sb);
+      ctx.count("boundary-setups");
+    }
+  }
   while done < ctx.n && tries < ctx.n * 20 {
     tries += 1;
     let (s, meta, cfg) = if let Some(s) = fixed.pop() {
       let m = Meta {
         crystal: "KTP".into(),
         pm: "Type2_e_eo".into(),
-        poling: false,
-        collinear: true,
+        poling: !matches!(s.pp, PeriodicPoling::Off),
+        collinear: s.signal.theta_internal().value_unsafe == 0.0,
         idler_explicit: false,
         idler_conj: true,
-        cp: false,
+        cp: s.crystal_setup.counter_propagation,
         lp_nm: 775.0,
         ls_nm: 1550.0,
-        length_um: 2000.0,
+        length_um: (s.crystal_setup.length.value_unsafe * 1e6).round(),
         wp_um: 100.0,
         ws_um: 100.0,
         wi_um: 100.0,
         apod: "Off".into(),
       };
-      (s, m, "default".to_string())
+      let c = cfg_str(&serde_json::to_value(s.clone().as_config()).unwrap());
+      (s, m, format!("fixed:{}", c))
     } else {
       let (cfg, meta) = gen_config(&mut ctx.rng, &opts);
       match build(&cfg) {
